@@ -7,5 +7,4 @@ CONSTANTS
   RootSets = {"w+lib"}
   MaxSteps = 4
 VIEW View
-INVARIANTS TreeOk FuzzyOk NameOk Agree RemovedUnresolvable
-ACTION_CONSTRAINT EmitEdge
+INVARIANTS TreeOk FuzzyOk NameOk Agree RemovedUnresolvable Emit
